@@ -30,12 +30,21 @@ def atSweep (st : St) (t : Dense) : String :=
   if cs.length > 4096 then "big" else
   String.intercalate "," (cs.map (fun c => showRes (t.at_ st c) Val.toStr))
 
+/-- C13 metadata invariant: one stride per axis, size = ∏ shape, all addresses distinct and inside
+    the storage window. -/
+def wfMeta (shape : Shape) (strides : List Int) (len : Int) : Bool :=
+  let cs := allCoords shape
+  if cs.length > 4096 then true else
+  let addrs := cs.map (fun c => dot c strides)
+  strides.length == shape.length && shape.all (· ≥ 0) &&
+    addrs.all (fun a => 0 ≤ a && a < len) && addrs.eraseDups.length == addrs.length
+
 def dumpFields (st : St) (t : Dense) : String :=
   let raw := showRes (t.rawCells st) showVals
   let mask := match t.mask with
     | none => "-"
     | some m => showRes ((rangeI m.len).mapM (fun i => st.mget m i)) showBools
-  s!"shape={showInts t.shape} strides={showInts t.strides} o={t.ap.o.show} view={if t.view then 1 else 0} old={if t.old.isSome then 1 else 0} len={t.win.len} elems={atSweep st t} raw={raw} mask={mask}"
+  s!"shape={showInts t.shape} strides={showInts t.strides} o={t.ap.o.show} view={if t.view then 1 else 0} old={if t.old.isSome then 1 else 0} len={t.win.len} wf={if wfMeta t.shape t.strides t.win.len then 1 else 0} elems={atSweep st t} raw={raw} mask={mask}"
 
 /-- outcome of an operation producing a new tensor variable -/
 def finishNew (ps : PState) (r : Res (St × Dense)) : PState × StepOut :=
@@ -137,6 +146,89 @@ def stepM (ps : PState) (stepIdx : Nat) (toks : List String) : PState × StepOut
       let coords := axes.foldr (fun ax acc => ax.flatMap (fun i => acc.map (i :: ·))) [[]]
       (ps, .fields ("box=" ++ String.intercalate "," (coords.map (fun c => showRes (t.at_ ps.st c) Val.toStr))))
     | _, _, _ => (ps, .fields "r=skip")
+  | ["clone", v] =>
+    match ps.obj v with
+    | some (_, t) => finishNew ps (Dense.clone ps.st t)
+    | _ => (ps.failVar, .fields "r=skip")
+  | ["shallow", v] =>
+    match ps.obj v with
+    | some (_, t) => finishNew ps (.ok (ps.st, t))
+    | _ => (ps.failVar, .fields "r=skip")
+  | ["mat", v] =>
+    match ps.obj v with
+    | some (id, t) =>
+      (match Dense.materialize ps.st t with
+      | .ok (st, some d) => ({ ps with st := st }.newVar d, .fields "r=ok")
+      | .ok (_, none) => (ps.aliasVar id, .fields "r=ok")
+      | .error (.err _) => (ps.failVar, .fields "r=err")
+      | .error (.panic _) => (ps.failVar, .stop "r=panic"))
+    | _ => (ps.failVar, .fields "r=skip")
+  | ["safeT", v, axes] =>
+    match ps.obj v, parseIntList axes with
+    | some (_, t), some ax => finishNew ps (Dense.safeT ps.st t ax)
+    | _, _ => (ps.failVar, .fields "r=skip")
+  | ["roll", v, axis, start, safe] =>
+    match ps.obj v, axis.toInt?, start.toInt? with
+    | some (id, t), some axis, some start =>
+      (match Dense.rollAxes t.dims axis start with
+      | .error (.err _) => (ps.failVar, .fields "r=err")
+      | .error (.panic _) => (ps.failVar, .stop "r=panic")
+      | .ok none => (ps.aliasVar id, .fields "r=ok")
+      | .ok (some axes) =>
+        if safe == "1" then finishNew ps (Dense.safeT ps.st t axes)
+        else match Dense.T ps.st t axes with
+          | .ok (st, d) => (({ ps with st := st }.setObj id d).aliasVar id, .fields "r=ok")
+          | .error (.err _) => (ps.failVar, .fields "r=err")
+          | .error (.panic _) => (ps.failVar, .stop "r=panic"))
+    | _, _, _ => (ps.failVar, .fields "r=skip")
+  | ["memset", v] =>
+    match ps.obj v with
+    | some (_, t) => (match Dense.memset ps.st t (.lit s!"w{stepIdx}") with
+        | .ok st => ({ ps with st := st }, .fields "r=ok")
+        | .error (.err _) => (ps, .fields "r=err")
+        | .error (.panic _) => (ps, .stop "r=panic"))
+    | _ => (ps, .fields "r=skip")
+  | ["zero", v] =>
+    match ps.obj v with
+    | some (_, t) => (match Dense.zero ps.st t with
+        | .ok st => ({ ps with st := st }, .fields "r=ok")
+        | .error (.err _) => (ps, .fields "r=err")
+        | .error (.panic _) => (ps, .stop "r=panic"))
+    | _ => (ps, .fields "r=skip")
+  | ["copy", d, v] =>
+    match ps.obj d, ps.obj v with
+    | some (did, dst), some (_, src) => finishMut ps did (Dense.copy ps.st dst src)
+    | _, _ => (ps, .fields "r=skip")
+  | ["copyto", v, d] =>
+    match ps.obj v, ps.obj d with
+    | some (sid, src), some (did, dst) =>
+      if sid == did then (ps, .fields "r=ok") else finishMut ps did (Dense.copyTo ps.st src dst)
+    | _, _ => (ps, .fields "r=skip")
+  | ["reshape", v, dims] =>
+    match ps.obj v, parseIntList dims with
+    | some (id, t), some dims =>
+      (match Dense.reshape ps.st t dims with
+      | .ok (.ok st d) => ({ ps with st := st }.setObj id d, .fields "r=ok")
+      | .ok (.errKept _) => (ps, .fields "r=err")
+      | .ok (.errMutated st d) => ({ ps with st := st }.setObj id d, .fields "r=err")
+      | .error (.err _) => (ps, .fields "r=err")
+      | .error (.panic _) => (ps, .stop "r=panic"))
+    | _, _ => (ps, .fields "r=skip")
+  | ["calcS", v, spec] =>
+    match ps.obj v, parseSlList spec with
+    | some (_, t), some sls => (ps, match shapeS t.shape sls with
+        | .ok sh => .fields s!"r=ok shape={showInts sh}"
+        | .error (.err _) => .fields "r=err"
+        | .error (.panic _) => .stop "r=panic")
+    | _, _ => (ps, .fields "r=skip")
+  | ["calcT", v, axes] =>
+    match ps.obj v, parseIntList axes with
+    | some (_, t), some ax => (ps, match t.ap.T ax with
+        | .ok (.ok ap _) => .fields s!"r=ok shape={showInts ap.shape}"
+        | .ok (.noop ap _) => .fields s!"r=ok shape={showInts ap.shape}"
+        | .error (.err _) => .fields "r=err"
+        | .error (.panic _) => .stop "r=panic")
+    | _, _ => (ps, .fields "r=skip")
   | ["iter", v, script] =>
     match ps.obj v with
     | some (_, t) => (ps, match runIterScript t script with
